@@ -38,12 +38,27 @@ EpochClauses(pfx) ==
                    ELSE Fail(\A e \in 1 .. Len(c.out) : Labs(c.out[e]) = Relabelled(c.out[e], c.opts[e]), pfx \o ".per_epoch_relabelling"))
         ELSE <<>>)
 
+\* LimitOK of Tables.tla, conjunct by conjunct, so that the verdict names what is wrong (together they are exactly LimitOK)
+LimitClauses(t, a2, b2, reset, out) ==
+  LET a == IF a2 = None THEN 0 ELSE a2
+      sel == IsSubSeq(Ids(out), Ids(NotOutside(t, a, b2))) IN
+     Fail(IsSubSeq(Ids(Inside(t, a, b2)), Ids(out)), "C18.limit_df.cycle_entirely_inside_missing")
+  \o Fail(sel, "C18.limit_df.cycle_entirely_outside_or_unknown_or_out_of_order")
+  \o (IF sel THEN Fail(\A k \in 1 .. Len(out) : out[k].fp = RowById(t, out[k].id).fp, "C18.limit_df.feature_values")
+               \o Fail(IF reset THEN \E d \in {a \div 2, (a + 1) \div 2} : \A k \in 1 .. Len(out) : out[k].s = Shift(RowById(t, out[k].id), d).s
+                                 ELSE \A k \in 1 .. Len(out) : out[k].s = RowById(t, out[k].id).s, "C18.limit_df.sample_shift")
+       ELSE <<>>)
+  \o Fail(LimitOK(t, a2, b2, reset, out) <=> (/\ IsSubSeq(Ids(Inside(t, a, b2)), Ids(out)) /\ sel
+                                              /\ \A k \in 1 .. Len(out) : out[k].fp = RowById(t, out[k].id).fp
+                                              /\ IF reset THEN \E d \in {a \div 2, (a + 1) \div 2} : \A k \in 1 .. Len(out) : out[k].s = Shift(RowById(t, out[k].id), d).s
+                                                           ELSE \A k \in 1 .. Len(out) : out[k].s = RowById(t, out[k].id).s), "MACHINERY.limit_clauses_differ_from_LimitOK")
+
 Clauses ==
   CASE c.op = "epoch_df" -> EpochClauses("C13.epoch_df")
     [] c.op = "epochs2d" -> EpochClauses("C13.axis_none")
     [] c.op = "limit_df" ->
          IF c.raised # "" THEN <<"C18.limit_df.raised">>
-         ELSE Fail(LimitOK(Core(c.t), c.a2, c.b2, c.reset, Core(c.out)), "C18.limit_df") \o Fail(c.pre = c.post, "C15.limit_df.input_modified")
+         ELSE LimitClauses(Core(c.t), c.a2, c.b2, c.reset, Core(c.out)) \o Fail(c.pre = c.post, "C15.limit_df.input_modified")
     [] c.op = "limit_signal" ->
          IF c.raised # "" THEN <<"C18.limit_signal.raised">>
          ELSE Fail(c.idx = SortedSeq(LimitSignalIdx(c.n, c.a2, c.b2)) /\ c.times_idx = c.idx, "C18.limit_signal")
